@@ -6,7 +6,7 @@ import (
 	"sort"
 	"sync"
 
-	"github.com/internetarchive/Zeno/internal/pkg/controler/pause"
+	pause "github.com/internetarchive/Zeno/verifsim/sim/pausex"
 )
 
 func init() { compSims["pause"] = simPause }
@@ -15,6 +15,7 @@ func init() { compSims["pause"] = simPause }
 // matched and unmatched pause/resume calls, worker exits, and a final stop.
 func simPause(cs *compState) {
 	k := cs.k
+	pause.XReset()
 	nSub := 1 + cs.Draw(5)
 	nCtl := 1 + cs.Draw(3)
 	cs.sample["subscribers"], cs.sample["controllers"] = nSub, nCtl
@@ -204,8 +205,5 @@ func simPause(cs *compState) {
 	if !cancelled {
 		cancel()
 	}
-	// make the package-level manager reusable for the next iteration
-	if pause.IsPaused() {
-		go pause.Resume()
-	}
+	pause.XReset()
 }
